@@ -45,27 +45,24 @@ theorem retransmit_guard (c : Client) (id : TID) (e : CEv) (raw : Bytes) (h : Op
     ∃ tx, c.lookup id = some tx ∧ raw = tx.raw ∧ h = some tx.h ∧ tx.attempt < c.maxAttempts ∧ e.isMsg = false ∧
       c.closed = false := by
   unfold Client.callback at hm
-  by_cases hc : c.closed = true
-  · rw [if_pos hc] at hm; simp at hm
-  · rw [if_neg hc] at hm
-    cases hl : c.lookup id with
-    | none => rw [hl] at hm; simp only at hm; split at hm <;> simp at hm
-    | some tx =>
-      rw [hl] at hm; simp only at hm
-      by_cases hd : (decide (c.maxAttempts ≤ tx.attempt) || e.isMsg) = true
-      · rw [if_pos hd] at hm; simp at hm
-      · rw [if_neg hd] at hm
-        simp only [Bool.or_eq_true, decide_eq_true_eq, not_or, Nat.not_le, Bool.not_eq_true] at hd
-        refine ⟨tx, rfl, ?_, ?_, hd.1, hd.2, by simpa using hc⟩
-        all_goals
-          unfold Client.retransmit at hm
-          simp only at hm
-          split at hm
-          · simp at hm
-          · split at hm
-            · simp only [List.mem_singleton, COut.write.injEq] at hm; first | exact hm.1 | exact hm.2
-            · simp only [List.mem_cons, COut.write.injEq, reduceCtorEq, List.not_mem_nil, or_false] at hm
-              first | exact hm.1 | exact hm.2
+  cases hl : c.lookup id with
+  | none => rw [hl] at hm; simp only at hm; split at hm <;> simp at hm
+  | some tx =>
+    rw [hl] at hm; simp only at hm
+    by_cases hd : (c.closed || decide (c.maxAttempts ≤ tx.attempt) || e.isMsg) = true
+    · rw [if_pos hd] at hm; simp at hm
+    · rw [if_neg hd] at hm
+      simp only [Bool.or_eq_true, decide_eq_true_eq, not_or, Nat.not_le, Bool.not_eq_true] at hd
+      refine ⟨tx, rfl, ?_, ?_, hd.1.2, hd.2, hd.1.1⟩
+      all_goals
+        unfold Client.retransmit at hm
+        simp only at hm
+        split at hm
+        · simp at hm
+        · split at hm
+          · simp only [List.mem_singleton, COut.write.injEq] at hm; first | exact hm.1 | exact hm.2
+          · simp only [List.mem_cons, COut.write.injEq, reduceCtorEq, List.not_mem_nil, or_false] at hm
+            first | exact hm.1 | exact hm.2
 
 /-- the collector only reports transactions whose deadline is strictly before the collect time: a tick at or before
     the deadline retransmits nothing for that transaction -/
